@@ -99,6 +99,23 @@ func prfStream(r *simctl.Rand) StreamSpec {
 	return st
 }
 
+// genCarrier draws the kind of source object for a fault-free run: mostly the
+// simulated device, sometimes an in-memory reader, a buffered reader, a
+// regular file or a pipe, possibly positioned behind an already consumed
+// header.
+func genCarrier(c *RunConfig, r *simctl.Rand, fast bool) {
+	kinds := []string{"bytes", "bytes", "file", "pipe", "bufio"}
+	c.Carrier = kinds[r.Intn(len(kinds))]
+	if c.Carrier == "bytes" || c.Carrier == "file" {
+		c.CarrierOffset = []int{0, 1250, 2500, 4096, 125000, 1 + r.Intn(5000)}[r.Intn(6)]
+	}
+	c.Chunk = ChunkSpec{Kind: "full"}
+	c.Stream.EOFData = false
+	for i := range c.Prelude {
+		c.Prelude[i].SameSource = false
+	}
+}
+
 // detPrelude draws an earlier detection made in the same run before the one
 // under observation: any of the six multi-sample workflows (mostly the same
 // one or one of the same sample size), on a healthy source or cut short by a
@@ -125,6 +142,9 @@ func detPrelude(w string, r *simctl.Rand) []PreludeSpec {
 		}
 		p.Fault = FaultSpec{Kind: []string{"eof", "custom", "partial"}[r.Intn(3)], At: at, Sticky: r.Intn(2) == 0}
 	}
+	// the device was simply used twice: both calls get the same source object
+	// (only a transient failure leaves it usable for the second call)
+	p.SameSource = r.Intn(2) == 0 && !p.Fault.Sticky
 	return []PreludeSpec{p}
 }
 
@@ -326,14 +346,17 @@ func Plan(prop, tier string, seed uint64) []RunConfig {
 	var out []RunConfig
 	switch prop {
 	case "C07":
-		reps := 4
+		reps := 10
 		if thorough {
-			reps = 60
+			reps = 300
 		}
 		for rep := 0; rep < reps; rep++ {
 			for _, w := range []string{WFactory, WPowerOn, WPeriod} {
 				for _, sc := range scenarios(w, r, thorough) {
-					c := RunConfig{Prop: prop, Workflow: w, Workers: 1, Policy: simctl.Policy{Kind: "first"},
+					// (the NumCPU / GOMAXPROCS seam is varied for the sequential
+					// workflows too: nothing in them may depend on it)
+					W := workerChoices[r.Intn(len(workerChoices))]
+					c := RunConfig{Prop: prop, Workflow: w, Workers: W, Policy: genPolicy(r, estSteps(w, W)),
 						Stream: prfStream(r), Chunk: ChunkSpec{Kind: "full"}, Fault: FaultSpec{Kind: "none"}, Runners: sc.spec, ReadYield: 1, Note: sc.name}
 					if r.Intn(4) == 0 {
 						c.Chunk = chunkFor(w, r)
@@ -341,6 +364,9 @@ func Plan(prop, tier string, seed uint64) []RunConfig {
 					}
 					if r.Intn(4) == 0 {
 						c.Prelude = detPrelude(w, r)
+					}
+					if r.Intn(5) == 0 {
+						genCarrier(&c, r, false)
 					}
 					out = append(out, c)
 				}
@@ -378,6 +404,9 @@ func Plan(prop, tier string, seed uint64) []RunConfig {
 					if k%4 == 3 {
 						// the sequential twin repeats the same history, one per scenario
 						c.Prelude = pre
+					}
+					if k%4 == 2 {
+						genCarrier(&c, r, true)
 					}
 					out = append(out, c)
 				}
@@ -460,14 +489,11 @@ func Plan(prop, tier string, seed uint64) []RunConfig {
 				for _, kind := range kinds {
 					for _, sticky := range []bool{true, false} {
 						for rep := 0; rep < reps; rep++ {
-							W := 1
-							pol := simctl.Policy{Kind: "first"}
-							if wi.Fast {
-								W = workerChoices[r.Intn(len(workerChoices))]
-								pol = genPolicy(r, estSteps(w, W))
-							} else if rep > 0 {
+							if !wi.Fast && rep > 0 {
 								continue
 							}
+							W := workerChoices[r.Intn(len(workerChoices))]
+							pol := genPolicy(r, estSteps(w, W))
 							ch := ChunkSpec{Kind: "full"}
 							if r.Intn(3) == 0 {
 								ch = chunkFor(w, r)
@@ -525,9 +551,9 @@ func Plan(prop, tier string, seed uint64) []RunConfig {
 		}
 		out = sortFaultPlans(out)
 	case "C10":
-		reps := 6
+		reps := 20
 		if thorough {
-			reps = 500
+			reps = 2500
 		}
 		for _, w := range AllWorkflows {
 			if w == WSingle {
@@ -545,12 +571,8 @@ func Plan(prop, tier string, seed uint64) []RunConfig {
 					sc = scs[0]
 				}
 				for j := 0; j < 3; j++ {
-					W := 1
-					pol := simctl.Policy{Kind: "first"}
-					if wi.Fast {
-						W = workerChoices[r.Intn(len(workerChoices))]
-						pol = genPolicy(r, estSteps(w, W))
-					}
+					W := workerChoices[r.Intn(len(workerChoices))]
+					pol := genPolicy(r, estSteps(w, W))
 					ch := chunkFor(w, r)
 					ry := []int{1, 1, 3, 17, 250}[r.Intn(5)]
 					if ch.Kind == "fixed" && ch.K < 61 || ch.Kind == "geom" || ch.Kind == "rand" {
@@ -560,6 +582,11 @@ func Plan(prop, tier string, seed uint64) []RunConfig {
 						Fault: FaultSpec{Kind: "none"}, Runners: sc.spec, ReadYield: ry, Note: sc.name}
 					if r.Intn(6) == 0 {
 						c.Prelude = detPrelude(w, r)
+					}
+					if r.Intn(4) == 0 {
+						// whatever read sizes an in-memory reader, a file or a pipe
+						// produce, against the simulated device's full reads
+						genCarrier(&c, r, wi.Fast)
 					}
 					out = append(out, c)
 				}
@@ -687,7 +714,7 @@ func singleCase(prop string, nb int, r *simctl.Rand) RunConfig {
 	if r.Intn(2) == 0 {
 		ch = ChunkSpec{Kind: []string{"rand", "geom", "onethenrest", "fixed"}[r.Intn(4)], K: 1 + r.Intn(9), Seed: r.Uint64()}
 	}
-	c := RunConfig{Prop: prop, Workflow: WSingle, NumByte: nb, Workers: 1, Policy: simctl.Policy{Kind: "first"},
+	c := RunConfig{Prop: prop, Workflow: WSingle, NumByte: nb, Workers: workerChoices[r.Intn(len(workerChoices))], Policy: simctl.Policy{Kind: "first"},
 		Stream: st, Chunk: ch, Fault: FaultSpec{Kind: "none"}, Runners: RunnerSpec{Mode: "scripted"}, ReadYield: 1}
 	if st.Kind != "const" && st.Kind != "periodic" && st.Tail == 0 {
 		st.EOFData = r.Intn(2) == 0
@@ -702,6 +729,9 @@ func singleCase(prop string, nb int, r *simctl.Rand) RunConfig {
 		}
 		pk := []string{"prf", "prf", "const"}[r.Intn(3)]
 		c.Prelude = []PreludeSpec{{Workflow: WSingle, NumByte: pn, Stream: StreamSpec{Kind: pk, Seed: r.Uint64(), Byte: r.Intn(256)}}}
+	}
+	if st.Kind != "const" && st.Kind != "periodic" && r.Intn(8) == 0 {
+		genCarrier(&c, r, false)
 	}
 	return c
 }
@@ -725,12 +755,9 @@ func planC14(prop string, thorough bool, r *simctl.Rand) []RunConfig {
 	var out []RunConfig
 	add := func(w string, st StreamSpec, note string) {
 		wi := Info(w)
-		W := 1
-		pol := simctl.Policy{Kind: "first"}
-		if wi.Fast {
-			W = workerChoices[r.Intn(len(workerChoices))]
-			pol = genPolicy(r, estSteps(w, W))
-		}
+		W := workerChoices[r.Intn(len(workerChoices))]
+		pol := genPolicy(r, estSteps(w, W))
+		_ = wi.Fast
 		c := RunConfig{Prop: prop, Workflow: w, Workers: W, Policy: pol, Stream: st, Chunk: ChunkSpec{Kind: "full"},
 			Fault: FaultSpec{Kind: "none"}, Runners: RunnerSpec{Mode: "real"}, ReadYield: 1, Note: note}
 		if wi.SampleBytes == 2500 && r.Intn(4) == 0 {
